@@ -131,7 +131,7 @@ def gen_history(rng):
 
 
 def run(ctx):
-    evorig.setup()
+    evorig.setup(custom_label_app=True)
     quick = ctx.tier == 'quick'
     ctx.rule = ('histories of 3-7 steps over one or two apps (optionally sharing evolution labels): full runs, runs '
                 'limited to one app, runs after an app gained evolutions or appeared, failed runs (fault at the first '
@@ -300,6 +300,7 @@ def run(ctx):
                               impl=r)
     purge_preview_probe(ctx)
     purge_fails_probe(ctx)
+    custom_label_probe(ctx)
     # ---- fixed witness of the Lean counterexample C08_cex_mark_then_install ---------------------
     evorig.fresh_databases()
     evorig.clear_evolutions()
@@ -372,6 +373,54 @@ def purge_preview_probe(ctx):
     if mid != before or after != before:
         ctx.fail(None, 'a purge that was only previewed changed the recorded evolutions: %s -> %s'
                  % (before, after if after != before else mid), {'history': steps, 'before': before, 'after': after})
+
+
+def custom_label_probe(ctx):
+    """an app whose label (AppConfig.label) is not its package name: its evolutions are recorded under the key they
+    are looked up with, so a further run finds them applied"""
+    from django.db import models
+    from django_evolution.models import Evolution
+    from django_evolution.mutations import AddField
+    if 'lapp' not in evorig.EXTRA:
+        return
+
+    def fld(name, t, **attrs):
+        return {'name': name, 'type': t, 'attrs': attrs, 'related': None}
+
+    def spec(n):
+        return {'apps': [{'id': 'lapp', 'models': [{
+            'name': 'Thing', 'table': 'lapp_thing', 'unique_together': [], 'index_together': [], 'indexes': [],
+            'constraints': [], 'fields': [fld('id', 'AutoField', primary_key=True)] +
+            [fld('f%d' % i, 'IntegerField', null=True) for i in range(n)]}]}]}
+    evos = lambda n: [{'label': 'l_e%d' % i, 'mutations': [AddField('Thing', 'f%d' % i, models.IntegerField, null=True)]}
+                      for i in range(1, n)]
+    evorig.fresh_databases()
+    evorig.clear_evolutions()
+    rows = lambda: sorted(Evolution.objects.filter(app_label__in=['lapp', 'lpkg']).values_list('app_label', 'label'))
+    steps, problems = [], []
+    for n, what in ((1, 'install'), (2, 'release 2'), (2, 'no-op'), (3, 'release 3'), (3, 'no-op')):
+        evorig.install_models(spec(n))
+        evorig.set_evolutions('lapp', evos(n))
+        tr = evorig.Trace()
+        r = evorig.run_evolver(trace=tr)
+        applied = [info.get('evolution') for nm, info in tr.signals() if nm == 'applying_evolution' and info.get('app') in ('lapp', 'lpkg')]
+        steps.append('%s: %s, executed %s, recorded %s' % (what, r[0], applied, rows()))
+        want = [('lapp', 'l_e%d' % i) for i in range(1, n)]
+        if r[0] != 'ok':
+            problems.append('%s fails: %s' % (what, str(r[1])[:120]))
+            break
+        if rows() != want:
+            problems.append('after %s the recorded evolutions of the app are %s, expected %s' % (what, rows(), want))
+            break
+        if what == 'no-op' and applied:
+            problems.append('a further run executed %s again' % applied)
+            break
+    ctx.count('custom_label_probe')
+    ctx.case({'history': steps}, nontrivial=True, sample_cap=1)
+    for p_ in problems:
+        ctx.fail(None, 'app with a custom label: ' + p_, {'history': steps})
+    evorig.install_models({'apps': []})
+    evorig.clear_evolutions()
 
 
 def purge_fails_probe(ctx):
